@@ -268,7 +268,7 @@ impl<F: TimerFlavour> Sut for TimerSut<F> {
     fn random_op(&self, rng: &mut Rng) -> Value {
         let k = self.futs.k();
         let now = self.t().verif_snapshot().flags.iter().find(|(n, _)| *n == "now").map_or(0, |(_, v)| *v);
-        loop {
+        for _attempt in 0..400 {
             let f = 1 + rng.below(k);
             let w = variant_name(self.wk[rng.below(self.wk.len())]);
             match rng.below(14) {
@@ -306,5 +306,6 @@ impl<F: TimerFlavour> Sut for TimerSut<F> {
                 _ => return json!({"op": "next_exp"}),
             }
         }
+        json!({"op": "idle"})
     }
 }
